@@ -277,7 +277,7 @@ def broken_lemma(log):
         found.append(dict(file="coq/" + path, line=line, lemma=lemma, message=" ".join(m.group(3).split())[:400]))
     if not found:
         return dict(file=None, line=None, lemma=None, message=log[-1500:], all=[])
-    rank = lambda f: 0 if "gen/RingGen.v" in f["file"] else 1 if "RingGen" in f["file"] else 2
+    rank = lambda f: 0 if "gen/RingGen" in f["file"] else 1 if "RingGenEquiv" in f["file"] or "RingGenGlue" in f["file"] else 2 if "RingGen" in f["file"] else 3
     found.sort(key=rank)
     return dict(found[0], all=[f"{f['file']}:{f['line']} {f['lemma']}" for f in found])
 
@@ -299,6 +299,10 @@ def proof_phase(rep, terr):
         f = bl.get("file") or ""
         if "gen/RingGen.v" in f:
             stage, what = "generated_model", "the model regenerated from the source does not type-check in Coq (the body of a method no longer has the representation its declared Rust type needs)"
+        elif "gen/RingGenCk.v" in f:
+            stage, what = "generated_model", "the 64-bit reading of the model regenerated from the source (gen/RingGenCk.v) does not type-check in Coq"
+        elif "RingGenCkEquiv" in f:
+            stage, what = "index_overflow", f"an index addition of the regenerated source can overflow usize in a valid state (or is no longer provably free of it): lemma {bl.get('lemma')}"
         elif "RingGenEquiv" in f or "RingGenGlue" in f:
             stage, what = "equivalence", f"the method regenerated from the source is no longer provably equal to the hand model: lemma {bl.get('lemma')}"
         else:
@@ -394,6 +398,52 @@ def gen_search(rep, binpath, items, outl, broken):
     return len(bad_crate), len(bad_hand), None
 
 
+CK_METHODS = {1: "Bounded::push", 2: "Bounded::pop", 3: "Bounded::get", 4: "Bounded::get_mut",
+              11: "Fixed::push", 12: "Fixed::get", 13: "Fixed::get_mut"}
+CK_HEADER = "From Dasp Require Import Ring.RingGenCkRun."
+
+
+def ck_hits():
+    """Ring/RingGenCkRun.v: 64-bit reading vs unbounded reading of the regenerated methods on a scaled-down machine
+    (modulus 2 * capacity, every valid state of capacities 1..3, every argument below the modulus)"""
+    ok, log = F.coq_make("theories/Ring/RingGenCkRun.vo")
+    if not ok:
+        return None, "the 64-bit reading of the regenerated model does not compile: " + " ".join(log[-500:].split())
+    rc, out = F.coq_eval("c06_ck", CK_HEADER, "scaled_down_hits")
+    if rc != 0:
+        return None, out[-600:]
+    rows = [[int(x) for x in re.findall(r"-?\d+", g)] for g in re.findall(r"\[([^\[\]]*)\]", out.split(":")[0])]
+    hits = []
+    for r in rows:
+        if len(r) < 4:
+            continue
+        if r[0] < 10:
+            h = dict(method=CK_METHODS.get(r[0], str(r[0])), modulus=r[1], start=r[2], len=r[3], capacity=r[4])
+            if len(r) > 5:
+                h["index"] = r[5]
+        else:
+            h = dict(method=CK_METHODS.get(r[0], str(r[0])), modulus=r[1], first=r[2], capacity=r[3])
+            if len(r) > 4:
+                h["index"] = r[4]
+        hits.append(h)
+    return hits, None
+
+
+def ck_search(rep, broken):
+    hits, note = ck_hits()
+    if hits:
+        h = min(hits, key=lambda h: (h["capacity"], h.get("index", 0)))
+        rep.violation("index_overflow_scaled_down", {
+            "kind": f"{h['method']} as regenerated from {RING_SRC}: on a machine whose usize has modulus {h['modulus']} "
+                    f"(storage of {h['capacity']} <= modulus/2 elements, valid state) an index addition reaches the modulus "
+                    "-- overflow panic with overflow checks, a wrapped (wrong) index without.  At modulus 2^64 the same "
+                    "arithmetic needs an argument near usize::MAX.",
+            "why": broken, "model": "generated_ck", "witness": h, "all_witnesses": len(hits),
+            "coq": "Eval vm_compute in scaled_down_hits.  (* Ring/RingGenCkRun.v; rows: method code, modulus, state, [index] *)",
+            "replay": "./check.py C06 --replay <this file>"})
+    return hits, note
+
+
 # ---------------------------------------------------------------------------
 
 
@@ -479,6 +529,10 @@ def main(rep, tier, seed):
             nc, nh, note = gen_search(rep, binpath, items, outl, broken)
             search.update(generated_vs_crate_failing=nc, generated_vs_hand_failing=nh, note=note)
             found = found or bool(nc) or bool(nh)
+        if broken["stage"] == "index_overflow":
+            hits, note = ck_search(rep, broken)
+            search.update(scaled_down_overflow_witnesses=(len(hits) if hits is not None else None), note=note)
+            found = found or bool(hits)
         if not found:
             rep.violation("translator_tie_broken", dict(
                 kind=broken["message"] + " -- and no failing input was found: the hand model still agrees with the crate on every case"
@@ -521,6 +575,15 @@ def finish(rep, info, n, nontriv, dist, samples, bad=()):
 
 def replay(path):
     j = json.load(open(path))
+    if j.get("model") == "generated_ck":
+        names, regenerated, terr = regenerate()
+        if terr:
+            print("translator:", terr)
+            return 1
+        hits, note = ck_hits()
+        print("scaled-down witnesses (64-bit reading vs unbounded reading of the regenerated methods):", hits if hits is not None else note)
+        print("DISAGREE" if hits or hits is None else "AGREE")
+        return 1 if hits or hits is None else 0
     if "case" not in j:
         print("this replay file names a broken lemma / translator error and has no input; re-run ./check.py C06")
         print(json.dumps({k: j.get(k) for k in ("kind", "stage", "broken_lemma", "file", "line", "coq_message", "message")}, indent=1))
